@@ -106,6 +106,7 @@ type Rdr struct {
 	ID      string
 	closed  atomic.Bool
 	OnClose func()
+	Hidden  bool // a reader the API does not list (the HLS muxer, the secondary rpiCamera reader)
 }
 
 // Closed reports whether Close was called.
@@ -121,6 +122,9 @@ func (r *Rdr) Close() {
 
 // APIReaderDescribe implements defs.Reader.
 func (r *Rdr) APIReaderDescribe() *defs.APIPathReader {
+	if r.Hidden {
+		return &defs.APIPathReader{Type: defs.APIPathReaderTypeHidden, ID: r.ID}
+	}
 	return &defs.APIPathReader{Type: "rtspSession", ID: r.ID}
 }
 
